@@ -22,7 +22,7 @@
                                    of a unit compiled earlier *)
 From Coq Require Import List ZArith Bool Lia.
 From RG.Base Require Import Outcome GoInt GoSlice.
-From RG.Quasigo Require Import Source Bytecode Compile VM Sem Guards Link VMLemmas CompileLemmas FunCorrect FunPanic Correct.
+From RG.Quasigo Require Import Source Bytecode Compile VM Sem Guards Link VMLemmas CompileLemmas FunCorrect FunPanic Correct Encodable.
 Import ListNotations.
 Local Open Scope Z_scope.
 
@@ -360,7 +360,7 @@ Variable cfg : config.
 Variable nat_fun : Z -> list value -> option (list value).
 
 Theorem later_units_preserve_meaning (e : env) (us : list nunit) :
-  env_inv cfg e -> in_scope cfg (ev_srcs e) (ev_funcs e) = true ->
+  env_inv cfg e -> source_guard cfg (ev_srcs e) = true ->
   let e' := load_units cfg us e in
   forall fuel id args cf, nthz (ev_funcs e) id = Some cf ->
     nthz (ev_funcs e') id = Some cf /\
@@ -370,7 +370,8 @@ Theorem later_units_preserve_meaning (e : env) (us : list nunit) :
     (forall w, call_sem (nat_sig cfg) nat_fun (ev_srcs e) fuel id args = EPanic w -> w <> PIndex ->
        exists fuel', call_fun cfg (map (vfunc_bytes cfg) (ev_funcs e')) nat_fun fuel' (vfunc_bytes cfg cf) args = RPanic w).
 Proof.
-  intros Hinv Hscope e' fuel id args cf Hcf.
+  intros Hinv Hguard e' fuel id args cf Hcf.
+  pose proof (source_guard_in_scope cfg _ _ Hinv Hguard) as Hscope.
   destruct (load_units_extends cfg us e) as (s & c & Hf & _). fold e' in Hf.
   split; [rewrite Hf; now apply nthz_app_l|].
   destruct (compile_correct_partial cfg nat_fun (ev_srcs e) (ev_funcs e) Hinv Hscope fuel id args cf Hcf) as [Hok Hpanic].
